@@ -178,6 +178,14 @@ def main():
         n += 1
         rows.append("| `%s` | %s | %s | %s |" % (m['id'], SHORT.get(m['id'], ''), ", ".join(m['caught_by']) or 'NONE', CONSEQUENCE.get(m['id'], '')))
     missed = len(CONSEQUENCE)
+    others = []
+    for d in sorted(glob.glob(os.path.join(ROOT, 'seeded', '*'))):
+        mp = os.path.join(d, 'meta.json')
+        if os.path.exists(mp):
+            m = json.load(open(mp))
+            if m['property'] not in m['caught_by']:
+                others.append("`%s` by %s" % (m['id'], ", ".join(m['caught_by']) or "NONE"))
+    other = (" - %d by the check of the property they were written against, the others by the property whose subject they are (%s)" % (n - len(others), "; ".join(others))) if others else ", each by the check of the property it was written against"
     sec = '''## 9. Sensitivity: which checks catch which broken versions of the library
 
 All of this is run with `tools/mutant_run.py`: the patch is applied to a scratch
@@ -207,7 +215,7 @@ outcome). Confirmed for all of them by `tools/mutant_run.py` and
 `tools/confirm_demos.py`: the patch applies, the 364 tests pass with it,
 `demo.cpp` exits non-zero with the patch and 0 without.
 
-**All %d are now reported by the quick tier of the property they target** (seed 1).
+**All %d are now reported by the quick tier** (seed 1)%s.
 47 of them were *not* (or not reliably, or only by the check of another property)
 caught by the version of the checks that existed when they were written; the last
 column says what was changed in the machinery because of them - in every case by
@@ -231,7 +239,7 @@ their extension.
 
 | id | change | reported by | consequence for the machinery |
 |---|---|---|---|
-''' % (n, n) + "\n".join(rows) + '''
+''' % (n, n, other) + "\n".join(rows) + '''
 
 Lessons that generalise beyond the individual changes: (1) *value alphabets
 must include the extremes of the declared types* - weights with full mantissas,
